@@ -122,6 +122,10 @@ namespace gtry::scl::strm {
 		StreamT in = constructFrom(in_);
 		in <<= in_;
 
+		// A latency of at most zero cycles can only be met by exactly zero cycles.
+		if (fifoLatency.choice == Preference::MAX_VALUE && fifoLatency.value == 0)
+			fifoLatency = FifoLatency(0);
+
 		if (fifoLatency == 0) 
 		{
 			IF(!valid(ret))
@@ -142,6 +146,10 @@ namespace gtry::scl::strm {
 	template<StreamSignal StreamT>
 	inline StreamT fifo(StreamT&& in, size_t minDepth, FifoLatency fifoLatency)
 	{
+		// A latency of at most zero cycles can only be met by exactly zero cycles.
+		if (fifoLatency.choice == Preference::MAX_VALUE && fifoLatency.value == 0)
+			fifoLatency = FifoLatency(0);
+
 		// This is a workaround until we properly move the fifoLatency == 0 case into the fifo implementation.
 		Fifo<StreamData<StreamT>> inst{ minDepth, removeFlowControl(move(in)), fifoLatency == 0 ? FifoLatency(1) : fifoLatency };
 		StreamT ret = fifo(move(in), inst, fifoLatency);
